@@ -60,6 +60,14 @@ func pkDropColl(ms int64) plPack {
 	return plPack{Msgs: []plMsg{{Kind: "dropColl", Ms: ms}}, TickMs: ms, TickLg: 5}
 }
 
+// a legal but not time-ordered pack: the drop message comes first, DML with a smaller timestamp after it
+func pkUnsortedDropPart(ms int64) plPack {
+	return plPack{Msgs: []plMsg{{Kind: "dropPart", Ms: ms, Lg: 3, Part: "p1"}, {Kind: "del", Ms: ms, Lg: 1, Part: "p1"}, {Kind: "ins", Ms: ms, Lg: 2, Part: "p1"}}, TickMs: ms, TickLg: 5}
+}
+func pkUnsortedDropColl(ms int64) plPack {
+	return plPack{Msgs: []plMsg{{Kind: "dropColl", Ms: ms, Lg: 3}, {Kind: "ins", Ms: ms, Lg: 1}, {Kind: "del", Ms: ms, Lg: 2}}, TickMs: ms, TickLg: 5}
+}
+
 type plLetter struct {
 	name string
 	mk   func(ms int64) plPack
@@ -72,6 +80,7 @@ var plLetters = []plLetter{
 	{"mixed", pkMixedOrder, false, false}, {"tick", pkTick, false, false}, {"begin0", pkBegin0, false, false}, {"createPart", pkCreatePart, false, false},
 	{"createColl", pkCreateColl, false, false}, {"unsupported", pkUnsupported, false, false}, {"insPart", pkInsPart, true, false},
 	{"dropPart", pkDropPart, true, false}, {"dropColl", pkDropColl, false, true},
+	{"unsortedDropPart", pkUnsortedDropPart, true, false}, {"unsortedDropColl", pkUnsortedDropColl, false, true},
 }
 
 func withPartition(c *plColl, knownDownstream bool) {
@@ -273,7 +282,7 @@ func plScriptScenarios(n int, scriptBound int) []*plScenario {
 		}
 		partDropped := false
 		for _, li := range cur {
-			partDropped = partDropped || plLetters[li].name == "dropPart"
+			partDropped = partDropped || plLetters[li].name == "dropPart" || plLetters[li].name == "unsortedDropPart"
 		}
 		for li := range plLetters {
 			if partDropped && plLetters[li].part {
@@ -399,6 +408,25 @@ func plPlacementScenarios(thorough bool) []*plScenario {
 			cb = 2
 		}
 		out = append(out, &plScenario{Name: "place:crosswise", SrcN: 2, TgtN: 2, Colls: []*plColl{c1, c2, c3}, Drivers: []plDriver{{Kind: "start", Coll: 0}, {Kind: "start", Coll: 1}, {Kind: "start", Coll: 2}}, HeavyBound: cb, MsgPosPChannel: true})
+	}
+	// upstream and downstream use the SAME physical channel names (the stock by-dev-rootcoord-dml_N) but place the
+	// collections differently: a: dml_0 -> dml_1, b: dml_1 -> dml_0, c: dml_0 -> dml_0 (c is read by a's handler and forwarded)
+	{
+		mk := func(id int64, name, sp, tp string) *plColl {
+			c := &plColl{ID: id, TgtID: id + 800, Name: name, DB: "default", Parts: map[string]int64{}, TgtParts: map[string]int64{}}
+			c.Shards = []*plShard{{SrcV: fmt.Sprintf("%s_%dv0", sp, id), TgtV: fmt.Sprintf("%s_%dv0", tp, id+800)}}
+			return c
+		}
+		a, b, c := mk(101, "a", "by-dev-dml_0", "by-dev-dml_1"), mk(102, "b", "by-dev-dml_1", "by-dev-dml_0"), mk(103, "c", "by-dev-dml_0", "by-dev-dml_0")
+		a.Shards[0].Script = []plPack{pkIns(1000)}
+		b.Shards[0].Script = []plPack{pkDel(1001)}
+		c.Shards[0].Script = []plPack{pkInsDelEq(1002), pkIns(1012)}
+		cb := 1
+		if thorough {
+			cb = 2
+		}
+		out = append(out, &plScenario{Name: "place:same-names", SrcN: 2, TgtN: 2, Colls: []*plColl{a, b, c},
+			Drivers: []plDriver{{Kind: "start", Coll: 0}, {Kind: "start", Coll: 1}, {Kind: "start", Coll: 2}}, HeavyBound: cb, MsgPosPChannel: true})
 	}
 	// downstream partition id is learned only after the create-partition event has been applied
 	{
@@ -580,6 +608,17 @@ func plDropScenarios(thorough bool) ([]*plScenario, map[string]map[string]bool) 
 		sc.Drivers = append(sc.Drivers, plDriver{Kind: "addpart", Coll: 0, Part: "p1", PartState: pb.PartitionState_PartitionCreated})
 		sc.ParkRegister = true
 		sc.HeavyBound = 1
+		out = append(out, sc)
+	}
+	// the same partition is announced twice at the same time (start-up listing and live watch): the two calls may
+	// interleave between the per-shard registrations; still exactly one drop request after both shards dropped it
+	{
+		sc := plShardedScenario("drop:partition/announced-twice", 2, func(i int) []plPack { return []plPack{pkDropPart(1050)} })
+		withPartition(sc.Colls[0], true)
+		sc.Drivers = append(sc.Drivers, plDriver{Kind: "addpart", Coll: 0, Part: "p1", PartState: pb.PartitionState_PartitionCreated},
+			plDriver{Kind: "addpart", Coll: 0, Part: "p1", PartState: pb.PartitionState_PartitionCreated})
+		sc.PointInAddPartition = true
+		sc.HeavyBound = 2
 		out = append(out, sc)
 	}
 	// stopping a collection never produces a drop request
